@@ -16,12 +16,43 @@
 #include <cstring>
 #include <functional>
 #include <map>
+#include <sstream>
+#include <linux/hw_breakpoint.h>
+#include <linux/perf_event.h>
+#include <sys/syscall.h>
+#include <unistd.h>
 
 using namespace Givaro;
 
 struct RA : Rational {
     RA(const Integer& n, const Integer& d) : Rational() { num = n; den = d; }
+    static void initEnd() { Rational::Init(nullptr, nullptr); Rational::End(); }   // the (empty) module hooks
+    static int mode() { return (int)flags; }                  // the process-wide reduction mode, as the library sees it
+    static const void* modeAddr() { return &flags; }
 };
+
+// Hardware write watchpoint on Rational::flags: counts every machine-level store to the mode, so that a call which
+// changes the mode temporarily and restores it (invisible in any input/output behaviour) is still seen.
+static int WFD = -1;
+static void watch_init() {
+    if (getenv("C10_NOWATCH")) return;
+    struct perf_event_attr pe;
+    memset(&pe, 0, sizeof pe);
+    pe.type = PERF_TYPE_BREAKPOINT;
+    pe.size = sizeof pe;
+    pe.bp_type = HW_BREAKPOINT_W;
+    pe.bp_addr = (uint64_t)(uintptr_t)RA::modeAddr();
+    pe.bp_len = HW_BREAKPOINT_LEN_4;
+    pe.exclude_kernel = 1;
+    pe.exclude_hv = 1;
+    WFD = (int)syscall(SYS_perf_event_open, &pe, 0, -1, -1, 0);
+}
+static long long watch_count() {
+    if (WFD < 0) return -1;
+    uint64_t c = 0;
+    if (read(WFD, &c, sizeof c) != (ssize_t)sizeof c) return -1;
+    return (long long)c;
+}
 
 // constructed on first use (after the library's own static Integer constants)
 static QField<Rational>& QQf() { static QField<Rational> q; return q; }
@@ -102,7 +133,14 @@ static const std::map<std::string, Fn> TABLE = {
     {"finv",   [](const A& a, O& o) { Rational r(5, 7); const Rational x = QA; QQ.inv(r, x); o.Q(r); }},
     {"finvin", [](const A& a, O& o) { Rational r = QA; QQ.invin(r); o.Q(r); }},
     {"fassign", [](const A& a, O& o) { Rational r(5, 7); const Rational x = QA; QQ.assign(r, x); o.Q(r); }},
-    {"fget",   [](const A& a, O& o) { const Rational x = QA; Integer n, d; QQ.get_num(n, x); QQ.get_den(d, x); o.Z(n); o.Z(d); }},
+    {"fget_num", [](const A& a, O& o) { const Rational x = QA; Integer n; QQ.get_num(n, x); o.Z(n); }},
+    {"fget_den", [](const A& a, O& o) { const Rational x = QA; Integer d; QQ.get_den(d, x); o.Z(d); }},
+    {"nume",   [](const A& a, O& o) { const Rational x = QA; o.Z(x.nume()); }},
+    {"deno",   [](const A& a, O& o) { const Rational x = QA; o.Z(x.deno()); }},
+    // the same object on both sides (guards added by 7655b35 / 8f9d69f / 69bebbc)
+    {"addself",  [](const A& a, O& o) { Rational r = QA; r += r; o.Q(r); }},
+    {"subself",  [](const A& a, O& o) { Rational r = QA; r -= r; o.Q(r); }},
+    {"finvself", [](const A& a, O& o) { Rational r = QA; QQ.inv(r, r); o.Q(r); }},
     // ---- powers
     {"powi",   [](const A& a, O& o) { o.Q(pow(QA, (int64_t)a.SW(3))); }},
     {"powu32", [](const A& a, O& o) { o.Q(pow(QA, (uint32_t)a.W(3))); }},
@@ -150,7 +188,40 @@ static const std::map<std::string, Fn> TABLE = {
     {"c3_Z",  [](const A& a, O& o) { o.Q(Rational(a.Z(1), a.Z(2), (int)a.SW(3))); }},
     {"c_dbl", [](const A& a, O& o) { o.Q(Rational(mkdouble(a, 1))); }},
     {"c_str", [](const A& a, O& o) { std::string s = decode(a.s(1)); o.Q(Rational(s.c_str())); }},
-    {"c_copy", [](const A& a, O& o) { const Rational x = QA; Rational y(x); Rational z; z = x; o.Q(y); o.Q(z); }},
+    {"c_copyctor", [](const A& a, O& o) { const Rational x = QA; Rational y(x); o.Q(y); }},
+    {"c_assign",   [](const A& a, O& o) { const Rational x = QA; Rational z(5, 7); z = x; o.Q(z); }},
+    {"c_copy",     [](const A& a, O& o) { const Rational x = QA; Rational z(5, 7); z.copy(x); o.Q(z); }},
+    {"c_logcpy",   [](const A& a, O& o) { const Rational x = QA; Rational z(5, 7); z.logcpy(x); o.Q(z); }},
+    {"c_noinit",   [](const A& a, O& o) { Rational z((givNoInit())); o.Q(z); }},
+    {"c_default",  [](const A& a, O& o) { Rational z; o.Q(z); }},
+    {"c_initend",  [](const A& a, O& o) { RA::initEnd(); Rational z; o.Q(z); }},
+    {"finit0",     [](const A& a, O& o) { Rational r = QA; QQ.init(r); o.Q(r); }},
+    {"c_zero",  [](const A& a, O& o) { o.Q(Rational::zero); }},
+    {"c_one",   [](const A& a, O& o) { o.Q(Rational::one); }},
+    {"c_mone",  [](const A& a, O& o) { o.Q(Rational::mOne); }},
+    {"fc_zero", [](const A& a, O& o) { QField<Rational> F; o.Q(F.zero); }},
+    {"fc_one",  [](const A& a, O& o) { QField<Rational> F; o.Q(F.one); }},
+    {"fc_mone", [](const A& a, O& o) { QField<Rational> F; o.Q(F.mOne); }},
+    {"fread",   [](const A& a, O& o) { std::istringstream in(decode(a.s(1))); Rational r(5, 7); QQ.read(in, r); o.Q(r); }},
+    // ---- conversions out of Q
+    {"to_i64", [](const A& a, O& o) { const Rational x = QA; o.I((int64_t)x); }},
+    {"to_u64", [](const A& a, O& o) { const Rational x = QA; o.raw(vp::hex_ull((uint64_t)x)); }},
+    {"to_i32", [](const A& a, O& o) { const Rational x = QA; o.I((int)x); }},
+    {"to_u32", [](const A& a, O& o) { const Rational x = QA; o.raw(vp::hex_ull((uint32_t)x)); }},
+    {"to_i16", [](const A& a, O& o) { const Rational x = QA; o.I((short)x); }},
+    {"to_u16", [](const A& a, O& o) { const Rational x = QA; o.raw(vp::hex_ull((uint16_t)x)); }},
+    {"to_i8",  [](const A& a, O& o) { const Rational x = QA; o.I((signed char)x); }},
+    {"to_u8",  [](const A& a, O& o) { const Rational x = QA; o.raw(vp::hex_ull((uint8_t)x)); }},
+    {"to_dbl", [](const A& a, O& o) { const Rational x = QA; double d = (double)x; uint64_t b; memcpy(&b, &d, 8); o.raw(vp::hex_ull(b)); }},
+    {"to_flt", [](const A& a, O& o) { const Rational x = QA; float f = (float)x; uint32_t b; memcpy(&b, &f, 4); o.raw(vp::hex_ull(b)); }},
+    {"to_str", [](const A& a, O& o) { const Rational x = QA; o.raw(std::string(x)); }},
+    {"fwrite", [](const A& a, O& o) { const Rational x = QA; std::ostringstream os; QQ.write(os, x); o.raw(os.str()); }},
+    {"print",  [](const A& a, O& o) { const Rational x = QA; std::ostringstream os; os << x; o.raw(os.str()); }},
+    {"fsig",   [](const A& a, O& o) { std::ostringstream os; QQ.write(os); std::istringstream is(os.str()); QField<Rational> F; F.read(is); o.raw(os.str()); }},
+    {"modz",   [](const A& a, O& o) { const Rational x = QA; o.Z(x % a.Z(3)); }},
+    // ---- the only two writers of the mode
+    {"setred",   [](const A&, O&) { Rational::SetReduce(); }},
+    {"setnored", [](const A&, O&) { Rational::SetNoReduce(); }},
     {"reduce", [](const A& a, O& o) { const Rational x = QA; o.Q(x.reduce(x)); }},
     {"finit_ZZ",  [](const A& a, O& o) { Rational r(5, 7); QQ.init(r, a.Z(1), a.Z(2)); o.Q(r); }},
     {"finit_Z",   [](const A& a, O& o) { Rational r(5, 7); QQ.init(r, a.Z(1)); o.Q(r); }},
@@ -159,22 +230,31 @@ static const std::map<std::string, Fn> TABLE = {
     {"finit_i64", [](const A& a, O& o) { Rational r(5, 7); QQ.init(r, (int64_t)a.SW(1)); o.Q(r); }},
     {"finit_u64", [](const A& a, O& o) { Rational r(5, 7); QQ.init(r, (uint64_t)a.W(1)); o.Q(r); }},
     {"finit_dbl", [](const A& a, O& o) { Rational r(5, 7); QQ.init(r, mkdouble(a, 1)); o.Q(r); }},
-    {"fconst",    [](const A& a, O& o) { o.Q(QQ.zero); o.Q(QQ.one); o.Q(QQ.mOne); o.Q(Rational::zero); o.Q(Rational::one); o.Q(Rational::mOne); }},
 };
+
+static bool HIST = false;          // inside a history the mode is whatever the previous calls left (only setred/setnored change it)
+static std::string LAST;           // outputs of the last call (without the trailer)
+// the harness itself stores to the mode only when it has to (a store that hits the watchpoint costs ~40 us)
+static void want_mode(bool red) { if ((RA::mode() != 0) != red) { if (red) Rational::SetReduce(); else Rational::SetNoReduce(); } }
 
 static void run(A& a) {
     auto it = TABLE.find(a.tok[0]);
     if (it == TABLE.end() || a.tok.size() < 2) { vp::emit(a, "NOFUNC"); return; }
-    if (a.s(0) == "0") Rational::SetNoReduce(); else Rational::SetReduce();
+    if (!HIST) want_mode(a.s(0) != "0");
     O o;
+    std::string res;
+    const long long w0 = watch_count();
     try {
         it->second(a, o);
-        Rational::SetReduce();
-        vp::emit(a, o.s);
+        res = o.s;
     } catch (...) {
-        Rational::SetReduce();
-        vp::emit(a, "EXC");
+        res = "EXC";
     }
+    const long long w1 = watch_count();
+    const int after = RA::mode();
+    LAST = res;
+    // trailer: the mode the call left behind, and the number of machine-level stores to Rational::flags during the call
+    vp::emit(a, res + " ; " + vp::hex_ll(after) + " " + ((w0 < 0 || w1 < 0) ? std::string("-1") : vp::hex_ll(w1 - w0)));
 }
 
 // ------------------------------------------------------------------------------------------------
@@ -295,8 +375,9 @@ static std::string R(bool red) { return red ? "1" : "0"; }
 static const char* BIN[] = {"add", "sub", "mul", "div", "addin", "subin", "mulin", "divin",
                             "fadd", "fsub", "fmul", "fdiv", "faddin", "fsubin", "fmulin", "fdivin"};
 static const char* CMP[] = {"lt", "gt", "le", "ge", "eq", "ne", "compare", "absCompare", "fareEqual", "fareNEqual"};
-static const char* UNA[] = {"neg", "pos", "abs", "fneg", "fnegin", "finv", "finvin", "fassign", "fget", "floor", "ceil", "round", "trunc",
-                            "fisZero", "fisOne", "fisMOne", "fisUnit", "fsign", "isZero", "isOne", "isMOne", "isInteger", "sign", "c_copy", "reduce"};
+static const char* UNA[] = {"neg", "pos", "abs", "fneg", "fnegin", "finv", "finvin", "fassign", "fget_num", "fget_den", "nume", "deno", "floor", "ceil", "round", "trunc",
+                            "fisZero", "fisOne", "fisMOne", "fisUnit", "fsign", "isZero", "isOne", "isMOne", "isInteger", "sign", "c_copyctor", "c_assign", "c_copy", "c_logcpy", "finit0", "reduce", "addself", "subself", "finvself",
+                            "to_i64", "to_u64", "to_i32", "to_u32", "to_i16", "to_u16", "to_i8", "to_u8", "to_dbl", "to_flt", "to_str", "fwrite", "print"};
 static const char* TER[] = {"faxpy", "fmaxpy", "faxmy", "faxpyin", "fmaxpyin", "faxmyin"};
 static const char* MIXI[] = {"addi", "subi", "muli", "divi", "iadd", "isub", "imul", "idiv"};
 
@@ -306,6 +387,101 @@ static void pair_cases(const Rt& a, const Rt& b, bool red, bool all) {
 }
 static void unary_cases(const Rt& a, bool red) {
     for (const char* k : UNA) go({k, R(red), a.n.hex(), a.d.hex()});
+    // operator%(Integer): moduli coprime to the denominator (the driver skips the others), 0 (throws), +-1
+    for (int i = 0; i < 3; ++i) { Z r = sgn(mag()); if (i == 2) mpz_add_ui(r.v, a.d.v, 1); go({"modz", R(red), a.n.hex(), a.d.hex(), r.hex()}); }
+}
+// operands sized for the conversions: quotients around the limits of every word type, and doubles/floats of every magnitude
+static void conv_cases(size_t n) {
+    static const char* CONV[] = {"to_i64", "to_u64", "to_i32", "to_u32", "to_i16", "to_u16", "to_i8", "to_u8", "to_dbl", "to_flt", "trunc"};
+    static const unsigned LIM[] = {7, 8, 15, 16, 31, 32, 63, 64};
+    for (size_t i = 0; i < n; ++i) {
+        bool red = G->below(4) != 0;
+        Rt a;
+        a.d = (G->below(3) == 0) ? Z(1) : mag_nz();
+        switch (G->below(4)) {
+            case 0: {  // quotient next to +-2^k
+                Z q = zpow2(LIM[G->below(8)], (long)G->below(5) - 2);
+                a.n = zmul(q, a.d);
+                if (G->below(2)) { Z r; mpz_set_ui(r.v, G->next()); mpz_mod(r.v, r.v, a.d.v); mpz_add(a.n.v, a.n.v, r.v); }
+                a.n = sgn(a.n);
+                break;
+            }
+            case 1: a.n = sgn(mag()); break;
+            case 2: { a.n = sgn(limbs(1 + G->below(15))); a.d = limbs(1 + G->below(15)); break; }      // up to 2^960: inside double's range
+            default: { Z t; mpz_set_ui(t.v, G->next() >> G->below(40)); a.n = sgn(t); mpz_set_ui(t.v, 1 + (G->next() >> G->below(63))); a.d = t; }
+        }
+        a = fin(a, red);
+        for (const char* k : CONV) go({k, R(red), a.n.hex(), a.d.hex()});
+    }
+}
+
+// ------------------------------------------------------------------------------------------------
+// histories: calls on live objects, the mode left to the library (only setred / setnored change it).  Every line shows the
+// mode observed before the call and the stored pairs of the operands as they are in the registers at that moment.
+// ------------------------------------------------------------------------------------------------
+static bool parse_pair(const std::string& res, Rt& out) {
+    std::istringstream ss(res);
+    std::string a, b, c;
+    if (!(ss >> a >> b) || (ss >> c) || a == "EXC") return false;
+    return mpz_set_str(out.n.v, a.c_str(), 16) == 0 && mpz_set_str(out.d.v, b.c_str(), 16) == 0;
+}
+static void special_double(uint64_t& s, uint64_t& e, uint64_t& m) {
+    const uint64_t MMAX = (1ULL << 52) - 1;
+    s = G->below(2);
+    switch (G->below(8)) {
+        case 0: e = 0; m = 0; break;                                   // +-0
+        case 1: e = 0; m = 1; break;                                   // +-denorm_min
+        case 2: e = 0; m = MMAX; break;                                // largest subnormal
+        case 3: e = 0; m = G->next() & MMAX; break;                    // random subnormal
+        case 4: e = 2046; m = MMAX; break;                             // +-DBL_MAX
+        case 5: e = 2046 - G->below(4); m = G->next() & MMAX; break;   // huge
+        case 6: e = 1; m = 0; break;                                   // +-DBL_MIN
+        default: e = 1000 + G->below(150); m = (G->next() & MMAX) & ~((1ULL << G->below(52)) - 1);
+    }
+}
+static void history(size_t len) {
+    const size_t NR = 6;
+    std::vector<Rt> reg(NR);
+    want_mode(true);
+    for (auto& r : reg) r = rnd_rat(true);
+    HIST = true;
+    auto M = []() { return std::string(RA::mode() ? "1" : "0"); };
+    auto put = [&](size_t d) { Rt t; if (parse_pair(LAST, t)) { reg[d] = t; if (mpz_sizeinbase(t.n.v, 2) + mpz_sizeinbase(t.d.v, 2) > 3000) reg[d] = rnd_rat(RA::mode() != 0); } };
+    static const char* CM[] = {"lt", "gt", "le", "ge", "eq", "ne", "compare", "fareEqual"};
+    static const char* U1[] = {"neg", "abs", "fneg", "fnegin", "reduce", "c_assign", "c_copyctor", "fassign", "addself", "subself"};
+    static const char* OBS[] = {"floor", "ceil", "round", "trunc", "nume", "deno", "sign", "isZero", "fisOne", "to_dbl", "to_i64"};
+    for (size_t i = 0; i < len; ++i) {
+        size_t a = G->below(NR), b = G->below(NR), c = G->below(NR), d = G->below(NR);
+        switch (G->below(16)) {
+            case 0: go({G->below(2) ? "setnored" : "setred", M()}); break;
+            case 1: go({"setnored", M()}); break;
+            case 2: case 3: case 4: {                                   // construction from a special double
+                uint64_t s, e, m; special_double(s, e, m);
+                go({G->below(2) ? "c_dbl" : "finit_dbl", M(), vp::hex_ull(s), vp::hex_ull(e), vp::hex_ull(m)}); put(d); break;
+            }
+            case 5: { Z x = sgn(mag()), y = sgn(mag_nz());                  // construction from pairs
+                      go({G->below(2) ? "c2_Z" : "c3_Z", M(), x.hex(), y.hex(), "0"}); put(d); break; }
+            case 6: case 7: case 8: case 9: {                               // binary operators and in-place forms
+                const char* k = BIN[G->below(sizeof BIN / sizeof *BIN)];
+                go({k, M(), reg[a].n.hex(), reg[a].d.hex(), reg[b].n.hex(), reg[b].d.hex()});
+                put(strstr(k, "in") ? a : d); break;
+            }
+            case 10: { const char* k = TER[G->below(sizeof TER / sizeof *TER)];
+                       go({k, M(), reg[a].n.hex(), reg[a].d.hex(), reg[b].n.hex(), reg[b].d.hex(), reg[c].n.hex(), reg[c].d.hex()});
+                       put(strstr(k, "in") ? a : d); break; }
+            case 11: { const char* k = U1[G->below(sizeof U1 / sizeof *U1)];
+                       go({k, M(), reg[a].n.hex(), reg[a].d.hex()}); put(d); break; }
+            case 12: if (mpz_sgn(reg[a].n.v) != 0) { go({G->below(2) ? "finv" : "finvself", M(), reg[a].n.hex(), reg[a].d.hex()}); put(d); } break;
+            case 13: { long long e = (long long)G->below(5) - 2;
+                       if (mpz_sizeinbase(reg[a].n.v, 2) + mpz_sizeinbase(reg[a].d.v, 2) < 600 && !(e < 0 && mpz_sgn(reg[a].n.v) == 0)) {
+                           go({"powi", M(), reg[a].n.hex(), reg[a].d.hex(), vp::hex_ll(e)}); put(d); }
+                       break; }
+            case 14: go({CM[G->below(sizeof CM / sizeof *CM)], M(), reg[a].n.hex(), reg[a].d.hex(), reg[b].n.hex(), reg[b].d.hex()}); break;
+            default: go({OBS[G->below(sizeof OBS / sizeof *OBS)], M(), reg[a].n.hex(), reg[a].d.hex()});
+        }
+    }
+    HIST = false;
+    want_mode(true);
 }
 static const long long IGRID[] = {0, 1, -1, 2, -2, 3, 7, -12, 32767, -32768, 65536, 2147483647LL, -2147483648LL};
 static void mixed_cases(const Rt& a, bool red) {
@@ -356,7 +532,7 @@ static void double_cases(bool thorough, size_t nrand) {
 
 static std::string dec(const Z& z) { char* s = mpz_get_str(nullptr, 10, z.v); std::string r(s); void (*fr)(void*, size_t); mp_get_memory_functions(nullptr, nullptr, &fr); fr(s, r.size() + 1); return r; }
 static void ctor_cases(size_t n) {
-    go({"fconst", "1"});
+    for (const char* k : {"c_noinit", "c_default", "c_initend", "c_zero", "c_one", "c_mone", "fc_zero", "fc_one", "fc_mone", "fsig"}) { go({k, "1"}); go({k, "0"}); }
     go({"c_neutral", "1", "0"}); go({"c_neutral", "1", "1"});
     static const long long S64[] = {0, 1, -1, 2, -2, 3, 6, -6, 12, 2147483647LL, -2147483648LL, 2147483648LL, 4294967295LL, 4294967296LL,
                                      9223372036854775807LL, -9223372036854775807LL, (-9223372036854775807LL - 1), 4611686018427387904LL, -4611686018427387904LL};
@@ -386,10 +562,17 @@ static void ctor_cases(size_t n) {
         go({"c_str", R(red), sx + "/" + sy});
         go({"c_str", R(red), "_" + sx + "_/" + sy});
         go({"c_str", R(red), sx + "__/_" + sy});
+        go({"fread", R(red), sx + "/" + sy});
+        go({"fread", R(red), "_" + sx});
+        // text after the number that is not a slash is left in the stream (putback): the integer alone is read
+        go({"c_str", R(red), sx + "_" + sy});
+        go({"c_str", R(red), sx + "x/" + sy});
+        go({"fread", R(red), sx + "__"});
     }
 }
 
 int main(int argc, char** argv) {
+    watch_init();
     if (argc < 3) {
         A a;
         while (vp::read_line(std::cin, a)) { run(a); fflush(stdout); }
@@ -410,7 +593,7 @@ int main(int argc, char** argv) {
     // 2. constructors: word grids (all pairs), big-integer pairs, strings
     ctor_cases(thorough ? 6000 : 500);
     // 3. doubles: class grid + random
-    double_cases(thorough, thorough ? 200000 : 15000);
+    double_cases(thorough, thorough ? 120000 : 15000);
     // 4. small exhaustive square: every pair of canonical fractions with |num| <= 6, den <= 6
     {
         std::vector<Rt> small;
@@ -421,8 +604,12 @@ int main(int argc, char** argv) {
         for (long n = -4; n <= 4; ++n) for (long d = 1; d <= 4; ++d) raw.push_back(Rt{Z(n), Z(d)});
         for (auto& a : raw) { unary_cases(a, false); mixed_cases(a, false); pow_cases(a, false); for (auto& b : raw) pair_cases(a, b, false, true); }
     }
+    // 4b. conversions out of Q around the limits of every target type
+    conv_cases(thorough ? 25000 : 2500);
+    // 4c. histories: special doubles, pair constructors, arithmetic and in-place forms interleaved with mode switches
+    for (size_t h = 0; h < (thorough ? 2500u : 300u); ++h) history(thorough ? 120 : 80);
     // 5. structured random operands
-    size_t npairs = thorough ? 60000 : 6000;
+    size_t npairs = thorough ? 42000 : 6000;
     for (size_t i = 0; i < npairs; ++i) {
         bool red = G->below(5) != 0;
         Rt a = rnd_rat(red);
